@@ -5,13 +5,15 @@
 wt=$1; shift
 cd $wt || exit 9
 export OMP_NUM_THREADS=1 PYTHONPATH=$wt
+# (no `git stash`: the stash stack is shared by all worktrees of a repository, and other agents may be using it)
+git checkout -q -- pybads && git apply MUTANT/patch.diff || { echo "agent patch does not apply to a clean tree"; exit 8; }
 echo "--- patch:"; git diff --stat -- pybads | tail -3
 [ -f MUTANT/patch.diff ] || { echo "no patch.diff"; }
 echo "--- suite with change:"; timeout 1200 /venv/bin/python -m pytest -q -p no:cacheprovider --timeout=900 2>&1 | tail -1
 echo "--- demo with change (expect exit 1):"; timeout 600 /venv/bin/python MUTANT/demo.py > /tmp/demo_with.$$ 2>&1; echo "exit=$?"; tail -3 /tmp/demo_with.$$
-git stash -q -- pybads
+git checkout -q -- pybads
 echo "--- demo without change (expect exit 0):"; timeout 600 /venv/bin/python MUTANT/demo.py > /tmp/demo_wo.$$ 2>&1; echo "exit=$?"; tail -2 /tmp/demo_wo.$$
-git stash pop -q
+git apply MUTANT/patch.diff
 rm -f /tmp/demo_with.$$ /tmp/demo_wo.$$
 cd /verif
 for p in "$@"; do
